@@ -180,3 +180,60 @@ pub fn block_on<F: std::future::Future>(fut: F) -> F::Output {
 pub fn block_on_mt<F: std::future::Future>(workers: usize, fut: F) -> F::Output {
 	tokio::runtime::Builder::new_multi_thread().worker_threads(workers).enable_all().build().unwrap().block_on(fut)
 }
+
+/// While alive, the process may open only `spare` more file descriptors than it has open now (soft limit;
+/// restored on drop, also when unwinding).
+pub struct ScarceFds {
+	old: Option<libc::rlimit>,
+}
+
+impl ScarceFds {
+	pub fn new(spare: u64) -> ScarceFds {
+		let used = std::fs::read_dir("/proc/self/fd").map(|d| d.count()).unwrap_or(64) as u64;
+		let mut lim = libc::rlimit { rlim_cur: 0, rlim_max: 0 };
+		// SAFETY: plain libc calls on a local struct
+		if unsafe { libc::getrlimit(libc::RLIMIT_NOFILE, &mut lim) } != 0 {
+			return ScarceFds { old: None };
+		}
+		let low = libc::rlimit { rlim_cur: (used + spare).min(lim.rlim_cur), rlim_max: lim.rlim_max };
+		if unsafe { libc::setrlimit(libc::RLIMIT_NOFILE, &low) } != 0 {
+			return ScarceFds { old: None };
+		}
+		ScarceFds { old: Some(lim) }
+	}
+	pub fn active(&self) -> bool {
+		self.old.is_some()
+	}
+}
+
+impl Drop for ScarceFds {
+	fn drop(&mut self) {
+		if let Some(lim) = self.old.take() {
+			// SAFETY: as above
+			unsafe { libc::setrlimit(libc::RLIMIT_NOFILE, &lim) };
+		}
+	}
+}
+
+struct NullLogger;
+impl log::Log for NullLogger {
+	fn enabled(&self, _: &log::Metadata) -> bool {
+		true
+	}
+	fn log(&self, record: &log::Record) {
+		// format the message (argument evaluation is part of what a logging process executes), keep nothing
+		let _ = format!("{}", record.args()).len();
+	}
+	fn flush(&self) {}
+}
+static NULL_LOGGER: NullLogger = NullLogger;
+
+/// Make the process one that logs at trace level (as `versatiles -vvvv` does) or not at all: code behind
+/// `log_enabled!` / `trace!` runs only in the former.
+pub fn trace_logging(on: bool) {
+	static ONCE: Once = Once::new();
+	ONCE.call_once(|| {
+		let _ = log::set_logger(&NULL_LOGGER);
+	});
+	log::set_max_level(if on { log::LevelFilter::Trace } else { log::LevelFilter::Off });
+}
